@@ -40,8 +40,16 @@ pub enum XOp {
     Read { c: usize },
     /// Client `c` half-closes (EOF for the server); it keeps reading.
     Shutdown { c: usize },
-    /// Publish `n` events on a topic back to back.
-    Publish { topic: String, n: u32 },
+    /// Publish `n` events on a topic back to back, each padded with `pad` bytes of payload.
+    Publish {
+        topic: String,
+        n: u32,
+        #[serde(default)]
+        pad: u32,
+    },
+    /// Virtual time passes (the paused clock advances once nothing is runnable): timers inside
+    /// the server tasks fire while a client is not reading.
+    Stall { ms: u64 },
     /// Let the server tasks run: 0 = a few polls, 1 = until nothing is runnable.
     Settle { deep: bool, polls: u32 },
 }
@@ -135,12 +143,37 @@ pub fn generate(seed: u64) -> XPlan {
             6 | 7 => plan.ops.push(XOp::Publish {
                 topic: r.pick(&["stats", "priority.window", "stats", "other"]).to_string(),
                 n: *r.pick(&[1u32, 1, 2, 3, 5, 9]),
+                pad: 0,
             }),
             _ => plan.ops.push(XOp::Settle { deep: r.chance(0.5), polls: r.range(1, 6) as u32 }),
         }
         if r.chance(0.5) {
             plan.ops.push(XOp::Settle { deep: r.chance(0.6), polls: r.range(1, 4) as u32 });
         }
+    }
+    // a subscriber that stops reading while large events keep coming: the socket's buffer fills,
+    // the connection task blocks in its write, time passes, then the client reads again
+    if r.chance(0.3) {
+        let c = r.below(n_clients as u64) as usize;
+        plan.lines[c].insert(0, r#"{"jsonrpc":"2.0","method":"subscribe","params":{"topic":"stats"},"id":7}"#.to_string());
+        // the stream changed: rebuild this client's writes as one write up front
+        plan.ops.retain(|o| !matches!(o, XOp::Write { c: cc, .. } | XOp::Shutdown { c: cc } if *cc == c));
+        let n = plan.stream(c).len();
+        let mut bulk = vec![XOp::Write { c, n }, XOp::Settle { deep: true, polls: 1 }];
+        for _ in 0..r.range(1, 3) {
+            bulk.push(XOp::Publish { topic: "stats".into(), n: r.range(6, 14) as u32, pad: *r.pick(&[16_384u32, 32_768, 65_536]) });
+            bulk.push(XOp::Stall { ms: r.range(100, 1_500) });
+            bulk.push(XOp::Publish { topic: "stats".into(), n: r.range(1, 3) as u32, pad: *r.pick(&[0u32, 200, 16_384]) });
+            bulk.push(XOp::Stall { ms: r.range(100, 900) });
+        }
+        bulk.push(XOp::Read { c });
+        bulk.push(XOp::Settle { deep: true, polls: 1 });
+        bulk.push(XOp::Read { c });
+        let mut ops = bulk;
+        ops.extend(std::mem::take(&mut plan.ops));
+        plan.ops = ops;
+        left[c] = 0;
+        shut[c] = false;
     }
     for c in 0..n_clients {
         if left[c] > 0 {
@@ -324,10 +357,19 @@ async fn run(plan: &XPlan, want_excerpt: bool) -> RunOutcome {
                     }
                 }
             }
-            XOp::Publish { topic, n } => {
+            XOp::Stall { ms } => {
+                tokio::time::sleep(std::time::Duration::from_millis(*ms)).await;
+                stats.inc("fault.client_not_reading_while_time_passes");
+            }
+            XOp::Publish { topic, n, pad } => {
                 for _ in 0..*n {
                     published += 1;
-                    hub.publish(topic, serde_json::json!({ "n": published })).await;
+                    if *pad > 0 {
+                        hub.publish(topic, serde_json::json!({ "n": published, "pad": "x".repeat(*pad as usize) })).await;
+                        stats.inc("x.large_event");
+                    } else {
+                        hub.publish(topic, serde_json::json!({ "n": published })).await;
+                    }
                 }
                 stats.add("x.published", *n as u64);
                 if *n > 1 {
@@ -447,7 +489,9 @@ fn judge_client(
         let v: Value = match serde_json::from_str(line) {
             Ok(v) => v,
             Err(e) => {
-                out.violate("C18.socket", "malformed_output", k as u64, format!("client {c}: line {k} from the server is not JSON ({e}): {line:?}"));
+                let shown: String = line.chars().take(160).collect();
+                out.violate("C18.socket", "malformed_output", k as u64, format!("client {c}: line {k} from the server ({} bytes) is not JSON ({e}): {shown:?}", line.len()));
+                out.violate("C20.socket", "torn_event_line", k as u64, format!("client {c}: line {k} from the server ({} bytes) is not a JSON-RPC message ({e}): {shown:?}", line.len()));
                 continue;
             }
         };
